@@ -3,6 +3,7 @@ package props
 import (
 	"fmt"
 	"math/rand"
+	"strconv"
 	"strings"
 
 	"github.com/llir/llvm/ir"
@@ -541,7 +542,7 @@ func c11Strings(ctx *fw.Ctx, forName bool) []string {
 		}
 		cur = next
 	}
-	for _, s := range []string{"42", "007", "0", "00", "9223372036854775807", "9223372036854775808", "18446744073709551615", "18446744073709551616", "99999999999999999999999999", "-1", "-0", "1e5", "0x10",
+	for _, s := range []string{"+7", "-5", "+0", "-0", "+007", "0x7", "7e1", "42", "007", "0", "00", "9223372036854775807", "9223372036854775808", "18446744073709551615", "18446744073709551616", "99999999999999999999999999", "-1", "-0", "1e5", "0x10",
 		"\\5C", "\\\\", "\\22", "a\\5Cb", "\\", "\"", "\"\"", "\\0", "\\0g", "\\G0", "%", "@", "!", "$", "#0", "a b", " a", "a ", "\t", "\n", "\r\n", "日本語", "\xff\xfe", "entry", "true", "null", "x86_fp80", "c\"x\"", ".", "-", "_", "$", "..", "a.b-c_d$e"} {
 		add(s)
 	}
@@ -926,6 +927,43 @@ func c11Enc(r *fw.Rec, blk, nblk int) {
 		}
 		if dec != s {
 			r.Violate(fw.Violation{Key: "enc-roundtrip/ident/" + c11Class(s), Input: fmt.Sprintf("%q", s), What: fmt.Sprintf("EscapeIdent(%q) = %s decodes to %q", s, id, dec)})
+		}
+		// the identifier API: a name given to NewLocalIdent / SetName is a name unless
+		// it is a number written in digits only; Ident() never panics; Name() tells
+		// distinct names apart (all-digit names in quotes, to keep them from IDs)
+		if strings.IndexByte(s, 0) < 0 {
+			allDigits := strings.Trim(s, "0123456789") == ""
+			var li ir.LocalIdent
+			var identText, nameText string
+			if p, msg, _ := fw.Guard(func() { li = ir.NewLocalIdent(s); identText = li.Ident() }); p {
+				r.Violate(fw.Violation{Key: "ident-api/new-local-ident-panics/" + c11Class(s), Input: fmt.Sprintf("%q", s), What: fmt.Sprintf("ir.NewLocalIdent(%q).Ident() panics: %s", s, firstLine(msg))})
+			} else if !allDigits && (li.IsUnnamed() || li.LocalName != s) {
+				r.Violate(fw.Violation{Key: "ident-api/name-taken-for-id/" + c11Class(s), Input: fmt.Sprintf("%q", s), What: fmt.Sprintf("ir.NewLocalIdent(%q) is %s (ID %d): a name that is not a plain number was taken for an ID", s, identText, li.LocalID)})
+			}
+			var l2 ir.LocalIdent
+			var g2 ir.GlobalIdent
+			l2.SetName(s)
+			g2.SetName(s)
+			for _, nm := range []struct {
+				what string
+				fn   func() string
+			}{{"LocalIdent.Name", l2.Name}, {"GlobalIdent.Name", g2.Name}} {
+				if p, msg, _ := fw.Guard(func() { nameText = nm.fn() }); p {
+					r.Violate(fw.Violation{Key: "ident-api/name-panics/" + c11Class(s), Input: fmt.Sprintf("%q", s), What: nm.what + " panics: " + firstLine(msg)})
+					continue
+				}
+				want := s
+				if allDigits {
+					want = `"` + s + `"`
+				}
+				if _, err := strconv.ParseInt(s, 10, 64); allDigits && err != nil && nameText == s {
+					// beyond int64 no ID looks like it: verbatim is unambiguous too
+					continue
+				}
+				if nameText != want {
+					r.Violate(fw.Violation{Key: "ident-api/name-changed/" + c11Class(s), Input: fmt.Sprintf("%q", s), What: fmt.Sprintf("%s of the name %q is %q (want %q: all-digit names quoted, everything else verbatim)", nm.what, s, nameText, want)})
+				}
+			}
 		}
 		if needsCare(s) {
 			r.Nontrivial("enc\x00" + s)
